@@ -962,6 +962,15 @@ impl Property for C15 {
     fn id(&self) -> &'static str {
         "C15"
     }
+    fn post(&self, tier: Tier, seed: u64, root: &std::path::Path) -> Result<Value, Failure> {
+        // thorough: coverage-guided search over the same tapes (libFuzzer + ASan on the generic
+        // `prop_tape` target; budget by measured executions per second)
+        if tier == Tier::Thorough {
+            crate::fuzzapi::run_prop_fuzz_campaign("C15", root, seed, 1000000, 8, self.tape_len())
+        } else {
+            Ok(Value::Null)
+        }
+    }
     fn tape_len(&self) -> usize {
         192
     }
